@@ -106,7 +106,7 @@ def stepLine (_ : Unit) (line : String) : Unit × String :=
     | ["widths"] => some "64 64 64 32"
     | ["consts"] => some ("rand-state " ++ toString randStateBits ++ "u ERANGE " ++ toString ERANGE ++ " EINVAL " ++ toString EINVAL)
     | ["ctype"] => some (String.join ((List.range 384).map fun (i : Nat) => hexOfNat 2 (ctypeBits (Int.ofNat i - 128))))
-    | ["premain"] => some premainLine
+    | ["premain", _] => some premainLine
     | ["stx", _, _, _] => some "returns"
     | ["stL", fn, base, pre, unit, count, tail] => do
         let base ← base.toNat?
